@@ -145,7 +145,7 @@ def run(seed=0, tier='quick', hints=None, broken=False):
     rng = random.Random(seed * 7919 + 14)
     viol = []
     names = sorted(CTOR)
-    per_class = 4 if tier == 'quick' else 100
+    per_class = 100          # every documented configuration of every class, also in the quick tier
     if broken:
         per_class = max(per_class, 12)
     evals, seen = 0, set()
